@@ -45,4 +45,32 @@ def showRat (q : Rat) : String :=
 def field (ws : List String) (k : String) : Option String :=
   ws.findSome? fun w => if w.startsWith (k ++ "=") then some (w.drop (k.length + 1)).toString else none
 
+/-- stateless mode: one output record per input line -/
+partial def loopPure (f : String → String) : IO Unit := do
+  let h ← IO.getStdin
+  let out ← IO.getStdout
+  let rec go : IO Unit := do
+    let line ← h.getLine
+    if line.isEmpty then return ()
+    out.putStrLn (f (line.dropEndWhile (· == (Char.ofNat 10))).toString)
+    go
+  go
+
+/-- stateful mode: the line `reset` restores the initial state (and prints `reset`) -/
+partial def loopState {σ : Type} (init : σ) (step : σ → String → σ × String) : IO Unit := do
+  let h ← IO.getStdin
+  let out ← IO.getStdout
+  let rec go (s : σ) : IO Unit := do
+    let line ← h.getLine
+    if line.isEmpty then return ()
+    let l := (line.dropEndWhile (· == (Char.ofNat 10))).toString
+    if l == "reset" then
+      out.putStrLn "reset"
+      go init
+    else
+      let (s', o) := step s l
+      out.putStrLn o
+      go s'
+  go init
+
 end GscribModel.Proto
